@@ -1,1 +1,165 @@
-// placeholder
+// ======================================================================================
+// units/C08/clients.rs — template-level clients (NOT code from /repo): they use only the
+// contracts of paged.rs / paged_load.rs / paged_store.rs and show that the contracts compose to
+// the history-quantified statement of property C08.
+// ======================================================================================
+
+/// one store, as a mathematical object: (address, value)
+pub open spec fn st_covers<V: Value>(w: (u64, V), x: u64) -> bool { w.0 <= x < w.0 + vlen(w.1) }
+
+/// "every address holds the byte MOST RECENTLY stored at it; addresses never stored hold nothing":
+/// look at the stores from the last one backwards
+pub open spec fn after_stores<V: Value>(e: Endian, ws: Seq<(u64, V)>, x: u64) -> Option<u8>
+    decreases ws.len(),
+{
+    if ws.len() == 0 { None }
+    else if st_covers(ws.last(), x) { Some(vbyte(e, ws.last().1, x - ws.last().0)) }
+    else { after_stores(e, ws.drop_last(), x) }
+}
+
+/// any finite sequence of stores of any byte-multiple widths at any (overlapping, page-crossing)
+/// addresses into a fresh memory over an optional backing: the memory stays well-formed, its own bytes
+/// are the most recently stored ones, every other address shows the backing's byte, and reported
+/// permissions are still the backing's
+pub fn replay_stores<V: Value>(endian: Endian, backing: Option<RC<backing::Memory>>, ws: Vec<(u64, V)>) -> (m: Memory<V>)
+    requires
+        backing matches Some(b) ==> b.wf(),
+        forall|j: int| 0 <= j < ws@.len() ==> val_ok((#[trigger] ws@[j]).1) && ws@[j].0 + vlen(ws@[j].1) <= u64::MAX,
+    ensures
+        /*@wf*/ m.wf(),
+        /*@frame*/ m.endian == endian && m.backing == backing,
+        /*@most_recent*/ forall|x: u64| #[trigger] m.own(x) == after_stores(endian, ws@, x),
+        /*@layered*/ forall|x: u64| #[trigger] m.full(x as int) == (match after_stores(endian, ws@, x) { Some(b) => Some(b), None => bk_at(m.bk(), x as int) }),
+        /*@perm*/ forall|x: u64| (#[trigger] m.perm(x)) == bk_perm(m.bk(), x as int),
+{
+    let mut m: Memory<V> = Memory::new(endian);
+    m.set_backing(backing);
+    let ghost all = ws@;
+    proof {
+        lemma_cells_empty(m.pages@);
+        assert forall|x: u64| #[trigger] m.own(x) == after_stores(endian, all.take(0), x) by {}
+    }
+    for w in it: ws
+        invariant
+            it.seq() == all,
+            m.wf(),
+            m.endian == endian && m.backing == backing,
+            forall|j: int| 0 <= j < all.len() ==> val_ok((#[trigger] all[j]).1) && all[j].0 + vlen(all[j].1) <= u64::MAX,
+            forall|x: u64| #[trigger] m.own(x) == after_stores(endian, all.take(it.index@), x),
+            forall|x: u64| (#[trigger] m.perm(x)) == bk_perm(m.bk(), x as int),
+    {
+        let ghost before = m;
+        let ghost k = it.index@;
+        assert(w == all[k]);
+        let ghost wv = w.1;
+        let r = m.store(w.0, w.1);
+        proof {
+            let done = all.take(k + 1);
+            assert(done.drop_last() =~= all.take(k));
+            assert(done.last() == all[k]);
+            assert forall|x: u64| #[trigger] m.own(x) == after_stores(endian, done, x) by {
+                assert(before.own(x) == after_stores(endian, all.take(k), x));
+            }
+            assert forall|x: u64| (#[trigger] m.perm(x)) == bk_perm(m.bk(), x as int) by {
+                assert(before.perm(x) == bk_perm(before.bk(), x as int));
+            }
+        }
+    }
+    proof { assert(all.take(all.len() as int) =~= all); }
+    m
+}
+
+/// a value stored and loaded back at the same address and width has the same bytes, whatever was
+/// stored before (and whatever the backing holds there)
+pub fn store_then_load<V: Value>(m: &mut Memory<V>, address: u64, value: V) -> (r: Option<V>)
+    requires
+        old(m).wf(), val_ok(value), address + vlen(value) <= u64::MAX,
+    ensures
+        /*@roundtrip*/ r matches Some(v) && v.vbits() == value.vbits()
+            && forall|i: int| 0 <= i < vlen(value) ==> #[trigger] vbyte(old(m).endian, v, i) == vbyte(old(m).endian, value, i),
+        /*@wf*/ final(m).wf(),
+{
+    proof { value.lemma_value_laws(); }
+    let bits = value.bits();
+    let ghost gv = value;
+    let ghost e = m.endian;
+    let s = m.store(address, value);
+    assert(s is Ok);
+    proof {
+        assert forall|i: int| 0 <= i < vlen(gv) implies (#[trigger] full_at(e, m.cells(), m.bk(), address + i)) == Some(vbyte(e, gv, i)) by {
+            assert(m.own((address + i) as u64) == Some(vbyte(e, gv, i)));
+        }
+    }
+    let l = m.load(address, bits);
+    proof {
+        let v = l->Ok_0->Some_0;
+        assert forall|i: int| 0 <= i < vlen(gv) implies #[trigger] vbyte(e, v, i) == vbyte(e, gv, i) by {
+            assert(full_at(e, m.cells(), m.bk(), address + i) == Some(vbyte(e, v, i)));
+        }
+    }
+    match l { Ok(o) => o, Err(_) => None }
+}
+
+/// clones are independent: a store through the original is not visible through a clone taken before
+/// it (content and permissions of the clone are those of the original at the time of cloning), and the
+/// clone still compares equal to what the original was.
+/// Rests on the ASSUMED clone-on-write contract of `Rc::make_mut` (prelude/rc_cow.rs) and on derive(Clone).
+pub fn clone_then_store<V: Value>(m: &mut Memory<V>, address: u64, value: V) -> (c: Memory<V>)
+    requires
+        old(m).wf(), val_ok(value), address + vlen(value) <= u64::MAX,
+    ensures
+        /*@clone_unchanged*/ c.wf() && c.endian == old(m).endian
+            && (forall|x: int| #[trigger] c.full(x) == old(m).full(x))
+            && (forall|x: u64| (#[trigger] c.perm(x)) == old(m).perm(x)),
+        /*@original_updated*/ final(m).wf() && forall|x: u64| #[trigger] final(m).own(x) == (
+            if address <= x < address + vlen(value) { Some(vbyte(old(m).endian, value, x - address)) } else { old(m).own(x) }),
+{
+    let c = m.clone();
+    let r = m.store(address, value);
+    c
+}
+
+/// equality is reflexive on clones, with and without a backing, before and after stores
+pub fn clone_equals_original<V: Value>(m: &Memory<V>) -> (r: bool)
+    ensures /*@reflexive*/ r,
+{
+    let c = m.clone();
+    *m == c
+}
+
+/// equal memories give the same answer to every load: both absent, or values with the same bytes
+pub fn equal_memories_load_alike<V: Value>(a: &Memory<V>, b: &Memory<V>, address: u64, bits: usize) -> (r: (Option<V>, Option<V>))
+    requires
+        a.wf(), b.wf(), bits as nat <= MAX_BITS(), bits != 0 && bits % 8 == 0,
+        mem_eq(*a, *b),
+    ensures
+        /*@same_presence*/ r.0 is Some <==> r.1 is Some,
+        /*@same_bytes*/ r.0 is Some ==> r.0->Some_0.vbits() == r.1->Some_0.vbits()
+            && forall|i: int| 0 <= i < bits as int / 8 ==> #[trigger] vbyte(a.endian, r.0->Some_0, i) == vbyte(b.endian, r.1->Some_0, i),
+{
+    proof { lemma_mem_eq(*a, *b); }
+    let x = a.load(address, bits);
+    let y = b.load(address, bits);
+    proof {
+        let e = a.endian;
+        assert(a.cells() == b.cells());
+        assert forall|i: int| 0 <= i < bits as int / 8 implies #[trigger] full_at(e, a.cells(), a.bk(), address + i) == full_at(e, b.cells(), b.bk(), address + i) by {
+            assert(a.full(address + i) == b.full(address + i));
+        }
+        if all_present(e, a.cells(), a.bk(), address, bits as nat / 8) {
+            assert forall|i: int| 0 <= i < bits as nat / 8 implies (#[trigger] full_at(e, b.cells(), b.bk(), address + i)) is Some by {
+                assert(full_at(e, a.cells(), a.bk(), address + i) is Some);
+            }
+            let u = x->Ok_0->Some_0;
+            let v = y->Ok_0->Some_0;
+            assert forall|i: int| 0 <= i < bits as int / 8 implies #[trigger] vbyte(e, u, i) == vbyte(e, v, i) by {
+                assert(full_at(e, a.cells(), a.bk(), address + i) == Some(vbyte(e, u, i)));
+                assert(full_at(e, b.cells(), b.bk(), address + i) == Some(vbyte(e, v, i)));
+            }
+        } else {
+            let i = choose|i: int| 0 <= i < bits as nat / 8 && !((#[trigger] full_at(e, a.cells(), a.bk(), address + i)) is Some);
+            assert(full_at(e, b.cells(), b.bk(), address + i) is None);
+        }
+    }
+    (match x { Ok(o) => o, Err(_) => None }, match y { Ok(o) => o, Err(_) => None })
+}
